@@ -24,7 +24,7 @@ import (
 // encryption setting, source mix and for .torrent / magnet adds.
 //
 // op : e2e pl=<n> files=<len>:<pad>,… seq=0|1 enc=plain|prefer|force magnet=0|1 src=peer|web|both seed=<n>
-// obs: done=<0|1> disk=<ok|bad|-> enc=<ok|plaintext-peer|-> err=<class|->
+// obs: done=<0|1> disk=<ok|bad|-> enc=<ok|plaintext-peer|-> err=<class|-> have=<pieces claimed> good=<pieces correct on disk>
 
 func init() {
 	register(&Suite{Name: "e2e", Gen: genE2E, Exec: execE2E})
@@ -51,7 +51,7 @@ func genE2E(r *Rng, n int, tier string) []Case {
 			l.total = l.pl + 7
 		}
 		src := r.Pick2("peer", "peer", "web", "both", "web2")
-		if src == "web2" {
+		if src == "web2" || (src == "web" && r.Chance(35)) {
 			// a lying web seed (same sizes, wrong bytes) next to an honest one; enough pieces for multi-piece ranges
 			// (ranges are numPieces/20 long) and pieces big enough that the source is well into its next piece
 			// when the verdict on the previous one arrives
@@ -268,6 +268,28 @@ func e2eOne(m map[string]string) string {
 		}
 		time.Sleep(3 * time.Millisecond)
 	}
+	// C01 end-state oracle, also when the download did not finish: the number of pieces the leecher claims
+	// (read first) must not exceed the number of pieces whose bytes on disk (read afterwards) hash correctly
+	have := int(lt.Stats().Pieces.Have)
+	good := 0
+	{
+		var got []byte
+		for i, ln := range lens {
+			b := make([]byte, ln)
+			if !pads[i] {
+				if fb, err := os.ReadFile(filepath.Join(root, "leech", "data", fileName(i))); err == nil {
+					copy(b, fb)
+				}
+			}
+			got = append(got, b...)
+		}
+		for i, off := 0, 0; off < len(got); i, off = i+1, off+pl {
+			h := sha1.Sum(got[off:min(off+pl, len(got))])
+			if bytes.Equal(h[:], pieces[20*i:20*i+20]) {
+				good++
+			}
+		}
+	}
 	disk := "-"
 	if done == 1 {
 		disk = "ok"
@@ -282,5 +304,5 @@ func e2eOne(m map[string]string) string {
 			off += ln
 		}
 	}
-	return fmt.Sprintf("done=%d disk=%s enc=%s err=-", done, disk, encVerdict)
+	return fmt.Sprintf("done=%d disk=%s enc=%s err=- have=%d good=%d", done, disk, encVerdict, have, good)
 }
